@@ -180,3 +180,14 @@ func VerifSetCringeGlobalsPath(p string) string {
 	cringeGlobalsPath = p
 	return old
 }
+
+// VerifWritersInstalled counts the channels that have a file writer (LJH22, OFF or LJH3) installed.
+func (ds *AnySource) VerifWritersInstalled() int {
+	n := 0
+	for _, dsp := range ds.processors {
+		if dsp.DataPublisher.HasLJH22() || dsp.DataPublisher.HasOFF() || dsp.DataPublisher.HasLJH3() {
+			n++
+		}
+	}
+	return n
+}
